@@ -5,6 +5,8 @@ void run_regs(const char *input);
 void run_heap(const char *input);
 void run_lexer(const char *input);
 void run_match(const char *input);
+void run_errstr(const char *input);
+void run_expr(const char *input);
 void run_parse(const char *input);
 
 void dom_replay(const char *line) {
@@ -17,6 +19,8 @@ void dom_replay(const char *line) {
         case 'H': run_heap(copy); break;
         case 'L': run_lexer(copy); break;
         case 'M': run_match(copy); break;
+        case 'E': run_errstr(copy); break;
+        case 'X': run_expr(copy); break;
         case 'P': run_parse(copy); break;
         default: break;
     }
